@@ -250,7 +250,11 @@ def strategy():
     renderer = st.sampled_from(['basic', 'basic', 'basic', 'json', 'jsondev', 'stream', 'streamdev', 'jsonp', 'jsonpdev'])
     fmt = st.sampled_from([None, None, 'json', 'html'])
     accept = st.sampled_from([None, '*/*', 'text/html', 'application/json', 'text/html, application/json;q=0.5',
-                              'application/json, text/html;q=0.5', 'application/xml', 'image/png', 'text/plain', ''])
+                              'application/json, text/html;q=0.5', 'application/xml', 'image/png', 'text/plain', '',
+                              # the same top entry (a type render_basic cannot produce), different second choices
+                              'application/xml, text/html;q=0.9', 'application/xml, application/json;q=0.9',
+                              'image/png, text/html;q=0.5', 'image/png, application/json;q=0.5',
+                              'text/html;q=0.2, application/json;q=0.9', 'text/html;q=0.9, application/json;q=0.2'])
     cb = st.sampled_from([None, None, 'cb', 'zq9cb', 'a.b'])
     return st.tuples(value, renderer, fmt, accept, cb)
 
@@ -347,8 +351,11 @@ def wants_html(fmt, accept):
         return True
     if fmt == 'json':
         return False
-    if accept in ('text/html', 'text/html, application/json;q=0.5'):
+    if accept in ('text/html', 'text/html, application/json;q=0.5', 'application/xml, text/html;q=0.9', 'image/png, text/html;q=0.5',
+                  'text/html;q=0.9, application/json;q=0.2'):
         return True
+    if accept in ('application/xml, application/json;q=0.9', 'image/png, application/json;q=0.5', 'text/html;q=0.2, application/json;q=0.9'):
+        return False
     if accept in (None, '', 'application/json', 'application/json, text/html;q=0.5', 'application/xml', 'image/png', 'text/plain'):
         return False
     return None
